@@ -79,7 +79,8 @@ def run(chk):
             arrs = {f: make_array(f, n, w, k + len(filecache), rng) for (f, n, w) in spec}
             # a second tree with the same column names and shapes but other values: the data_key option selects the tree
             arrs2 = {f: (a + 1).astype(a.dtype) for f, a in arrs.items()}
-            fn = os.path.join(chk.scratch, f'f{len(filecache)}.asdf')
+            # file names sort in the REVERSE of the argument order (position k): the stream follows the argument order, never the names
+            fn = os.path.join(chk.scratch, f'k{9 - k}_f{len(filecache)}.asdf')
             if len(filecache) % 2:
                 # every second file is blsc-compressed (blocks rewritten with the repository's own compressor)
                 from blscfile import write_blsc
